@@ -263,6 +263,12 @@ theorem gen_refines (P : Prims K) (o : Opts) (T : FTab K) (F : FSem K) (hT : Tab
     obtain ⟨g, hFf, hg⟩ := hT.sem f fn hTf
     simp only [evalC, evalM, evalCs_ofList, hFf]
     exact Refines.bind (gens_refines P o T F hT hS args tas htas ρ) (fun vs => by simpa using hg vs)
+  | .delay k e d, c, h, ρ => by
+    simp only [gen] at h
+    obtain ⟨_, _, h2⟩ := bind_ok.mp h
+    obtain ⟨_, _, hc⟩ := bind_ok.mp h2
+    cases hc
+    simp [evalC, evalM, Env.lookup]; exact Refines.refl
 theorem gens_refines (P : Prims K) (o : Opts) (T : FTab K) (F : FSem K) (hT : TabOK P T F)
     (hS : NoShadow T) : ∀ (es : MExprs K) (cs : List (CTerm K)), gens P o T es = .ok cs →
     ∀ ρ : Env K, Refines (evalCL P ρ cs) (evalMs P F ρ es)
